@@ -23,12 +23,18 @@ RULE = ("case = one Aggregate call: object type (attester, proposer full/blinded
 ASSUMPTIONS = [
     "crypto abstraction of the model: an aggregate over pairwise distinct share indices verifies iff >= t of them, each a "
     "well-formed signature by the share it is filed under over the published content with the type's domain and the "
-    "content's own epoch (the Lagrange fact checked for C08); hashes injective on the objects in play",
+    "content's own epoch (the Lagrange fact checked for C08); for partials made with cluster keys but filed under other "
+    "indices the model decides validity EXACTLY (Lagrange functional identity per signed message, computed modulo three "
+    "15-bit primes) because their errors can cancel into the genuine group signature; hashes injective / independent on "
+    "the objects in play",
     "the table type -> (signing domain, epoch source) is part of the spec (consensus-specs / builder-specs); the executor "
     "signs and re-verifies with it, never with core's DomainName()/Epoch(); the beacon mock supplies domain types, fork "
     "schedule (deneb/electra/fulu) and genesis data",
     "a call whose partials are all valid, distinct, >= t and agree must be published to every subscriber (DESIGN C09: "
     "'Publish iff all Ok'); subscribers return nil",
+    "'contains an invalid share' is judged as the aggregator can judge it (it only has the group key): nothing must be "
+    "published unless some selection of one partial per index combines to a valid group signature (then: error or that "
+    "valid object)",
     "left open (statement silent): a repeated share index when >= t distinct indices remain, and a partial that carries one "
     "content but signs the other - outcome may be an error or a VALID object whose content >= t distinct shares signed; "
     "which error; the duty passed to subscribers",
@@ -87,12 +93,17 @@ def random_cases(seed, pool, k):
 
         vals = []
         for _v in range(r.choice([1, 1, 2, 2, 3])):
-            style = r.choice(["ok", "ok", "few", "one", "many", "dup", "allB"])
+            style = r.choice(["ok", "ok", "few", "one", "many", "dup", "allB", "misfiled"])
             size = r.randint(t, n)
             if style == "few":
                 size = r.randint(0, t - 1)
             ids = r.sample(range(1, n + 1), size)
             lst = [honest(i) for i in ids]
+            if style == "misfiled":   # valid signatures by cluster shares, filed under arbitrary indices: errors may cancel
+                ids = r.sample(range(1, n + 2), r.randint(t, min(n + 1, t + 1)))
+                lst = [honest(i) for i in ids]
+                for p in lst:
+                    p["by"] = r.randint(1, n)
             if style == "allB":
                 for p in lst:
                     p["content"], p["over"] = "B", "B"
